@@ -29,9 +29,10 @@ CHECKS["C01"] = {
     "streams": [
         EVAL(4000, 60000, kinds=["run"], projections=["skeleton"], oracles=["wf"]),
         VM(1500, 20000, kinds=["vmrun"], projections=["skeleton"], oracles=["wf"]),
-        {"name": "envcheck", "quick_n": 1500, "thorough_n": 20000, "oracles_only": True, "oracles": ["envcheck-wrong-result"]},
+        {"name": "envcheck", "quick_n": 1500, "thorough_n": 20000, "oracles_only": True, "oracles": ["envcheck-wrong-result", "envcheck-result-ill-formed"]},
+        {"name": "conv", "quick_n": 3000, "thorough_n": 40000, "oracles_only": True, "oracles": ["conv-wf"]},
     ],
-    "explanation": "Preservation is a theorem over the model: check Γ e = ok (T, e') and a conforming environment imply every value eval produces is deeply well formed (WF) with own type tyEq T, irrespective of object field order (C01.preservation, annotated_sound, check_annotated, builtin_sound for all 53 strict built-ins, host_respects, field_order, no_nil); the VM inherits it through C03. The model is tied to the code by the eval/vm streams under the type-skeleton projection, and the implementation-side oracle walks every result of all four back ends against the inferred type with types.Equals.",
+    "explanation": "Preservation is a theorem over the model: check Γ e = ok (T, e') and a conforming environment imply every value eval produces is deeply well formed (WF) with own type tyEq T, irrespective of object field order (C01.preservation, annotated_sound, check_annotated, builtin_sound for all 53 strict built-ins, host_respects, field_order, no_nil); the VM inherits it through C03. The model is tied to the code by the eval/vm streams under the type-skeleton projection, and the implementation-side oracle walks every result of all four back ends against the inferred type with types.Equals. At the boundary: whatever environment the check ACCEPTS, the value produced is well formed (envcheck stream, object-literal results through which every variable flows: envcheck-result-ill-formed), and every value the reflection layer hands over is well formed at every step of a history of conversions of one Go type (conv stream: conv-wf).",
     "assumptions": ["host functions respect their registered signature (hostRespects, decidable for the harness's host zoo); type-variable names of registered signatures do not start with s/t (okVars; true of the built-in table by decide)"],
 }
 
@@ -106,7 +107,7 @@ CHECKS["C07"] = {
         {"name": "envcheck", "quick_n": 3000, "thorough_n": 40000,
          "oracles": ["envcheck-accepts-mismatch", "envcheck-rejects-equal", "envcheck-evaluated-on-reject", "envcheck-panic", "envcheck-wrong-result", "process-crash"]},
     ],
-    "explanation": "Decision logic of the facade's environment check over the model (Conv.envCheck), proved: accepted iff every compile-time name is bound at run time to a value of an equal type (C07.accept_iff, reject_iff, reject_missing, reject_mismatch, undefined_iff); extra names never matter (extra_names_ok); the verdict, error class included, is invariant under re-ordering of both environments (order_irrelevant); only the types of the bound values matter (only_types_matter); a value whose own object type is a field permutation of the declared type passes (field_order_ok); acceptance plus well-formed values gives the premise of C01/C02 (accepted_env_ok). Tie: envcheck stream through the public API (Compile, Callable) on pairs of struct / map / raw environments and their mutations, half of them after a warm-up call on the same Callable, with a tracing host function making 'evaluates nothing' observable.",
+    "explanation": "Decision logic of the facade's environment check over the model (Conv.envCheck), proved: accepted iff every compile-time name is bound at run time to a value of an equal type (C07.accept_iff, reject_iff, reject_missing, reject_mismatch, undefined_iff); extra names never matter (extra_names_ok); the verdict, error class included, is invariant under re-ordering of both environments (order_irrelevant); only the types of the bound values matter (only_types_matter); a value whose own object type is a field permutation of the declared type passes (field_order_ok); acceptance plus well-formed values gives the premise of C01/C02 (accepted_env_ok). Tie: envcheck stream through the public API (Compile, Callable) on pairs of struct / map / raw environments and their mutations, half of them after a warm-up call on the same Callable, with a tracing host function making 'evaluates nothing' observable. The stream also compiles other expressions on the same engine between a compilation and its invocation, builds compile-time types whose components are one shared node (a DAG), and realises ONE declaration as two Go types (other field order, numeric kinds, pointers): such bindings are equal by construction and must be accepted whatever the reflection layer makes of them.",
     "assumptions": [],
 }
 
@@ -181,6 +182,7 @@ CHECKS["C13"] = {
         {"name": "history", "quick_n": 800, "thorough_n": 10000, "oracles": ["history-*", "process-crash"]},
         EVAL(3000, 40000, kinds=["run", "pipeline"], projections=["prints"], oracles=["address-in-text", "backend-divergence-reentrant"]),
         {"name": "valrel", "quick_n": 2000, "thorough_n": 30000, "oracles_only": True, "oracles": ["valrel-canonical"]},
+        {"name": "conv", "quick_n": 2500, "thorough_n": 30000, "oracles_only": True, "oracles": ["conv-type-disagrees"], "oracle_input_regex": r"^env history"},
     ],
     "explanation": "The model is a pure function of (source, environment): evaluation is determined (C06.determined), renderings and string() are invariant under any re-ordering of map entries at any depth (C13.texts_invariant, render_map_perm, stringify_map_perm, valEq_map_perm) and object rendering under field permutation (render_obj_perm); the only events are host calls and print lines. Tie: the history stream plays random Compile/invoke sequences on ONE engine with shared environment objects (structs, *types.Env/*val.Env, maps), each invoke twice, against fresh engines with fresh copies, with stdout captured and host values deep-compared; the prints projection of the eval stream; a compiled expression re-entered from a host function while it is running (an interleaved invocation) must give the results of separate evaluations on every back end.",
     "assumptions": ["string() of an object follows declaration order by design (kernel-checked example C13.stringify_obj_declaration_order); it is a function of the environment's contents, which include the field order"],
